@@ -14,6 +14,8 @@ class Point2D(object):
         return super().__new__(cls)
 
     def __init__(self, *point: Tuple[float]):
+        if point[0] is self:
+            return
         try:
             x, y = point if len(point) == 2 else point[0]
         except ValueError:
